@@ -45,7 +45,11 @@ Second == <<FBuf(2, "OK"), FSym(1, 1, "OK"), FBuf(1, "OK"), FPad(0)>>
 XzPads == {Whole(XzStream(p), Opt0) : p \in 1..5}
           \cup {Whole(SubSeq(XzStream(p), 6, 10) \o Second, Opt0) : p \in {0, 3, 4}}
           \cup {Whole(SubSeq(XzStream(p), 8, 10) \o <<FBuf(2, "DATA_ERROR")>>, Opt0) : p \in {0, 2, 4}}
-XzInputs == {Whole(XzV, Opt0)} \cup {Whole(F, Opt0) : F \in XzErrors} \cup Truncations(XzV, Opt0) \cup XzPads
+\* notification after the Stream Header (LZMA_TELL_*), also before a truncation point and in a second Stream
+XzNote(code) == <<XzV[1], FNote(code)>> \o SubSeq(XzV, 2, 10)
+XzNotes == {Whole(XzNote(c), Opt0) : c \in Notifs} \cup Truncations(XzNote("GET_CHECK"), Opt0)
+           \cup {Whole(SubSeq(XzStream(4), 6, 10) \o <<Second[1], FNote("NO_CHECK")>> \o SubSeq(Second, 2, 4), Opt0)}
+XzInputs == XzNotes \cup {Whole(XzV, Opt0)} \cup {Whole(F, Opt0) : F \in XzErrors} \cup Truncations(XzV, Opt0) \cup XzPads
 
 \* ------------------------------------------------------------------ lzma1
 Hdr(s) == <<ONeed(FByte(1, 0, TRUE, "OK")), ONeed(FSize(2, s))>>
